@@ -8,6 +8,12 @@ def add(pid, text, note, technique, ref):
 add("C03","Bounded symbolic verification: the five real interpolator classes (vectorised and scalar reference) are executed on a tensor backend whose scalars are z3 real terms; alpha and every down/nominal/up value are symbolic (alpha over the whole real line), so formula, anchors, continuity/C1/C2 at the breakpoints, extrapolation slopes, fast=slow and history independence are solver-decided for all values; only tensor shapes (<=3 systs x 2 histos x 2 bins x 3 alphas) and call histories (<=3 calls) are enumerated.",
     "Arithmetic over the reals (no rounding); pow/log uninterpreted with true axiom instances; numpy trusted for array structure; z3 trusted for verdicts; code4 alpha0=1 only; other backends' kernels outside.",
     "symbolic execution of the real Python code on a z3-term tensor backend + per-cell SMT (nlsat) equivalence against scalar oracles, counterexamples replayed on numpy","DESIGN.md §3 C03")
+MODEL_NOTE="Arithmetic over the reals (no rounding); pow/log/sqrt and the two log-density primitives uninterpreted with true axiom instances; numpy trusted for array structure; z3 trusted for verdicts; spec shapes bounded by the stated family; other backends' kernels outside."
+TECH="symbolic execution of the real Python code on a z3-term tensor backend + per-cell SMT (nlsat) equivalence against scalar oracles, counterexamples replayed on numpy"
+add("C01","Bounded symbolic verification: real pyhf.Model construction and expected_actualdata / return_by_sample evaluation run on the symbolic backend with every yield, variation, uncertainty, clip threshold and parameter a solver symbol (parameters over the whole real line); each reported bin and each (sample, bin) cell is proved equal to the scalar HistFactory formula walked from the spec dictionary; with clipping the proof is layered (every cell of every modifier applier, then the assembly on fresh modification symbols). Enumerated: the spec-shape family and the interpolation-code/clip/batch settings.",
+    MODEL_NOTE+" The interpolation function itself is C03's subject (C01 applies the real interpolator to one isolated triple).",TECH,"DESIGN.md §3 C01")
+add("C02","Bounded symbolic verification: real Model.logpdf/mainlogpdf/constraint_logpdf/pdf/expected_auxdata/expected_data on the symbolic backend with parameters, main data and (independent) auxiliary data symbolic; the log-density term is decomposed into its Poisson/Normal log-term applications and every argument (datum position, mean, width/factor) is proved equal to the constraint list derived from the spec and measurement overrides; plus the lemma that numpy_backend's hand-written log-density bodies are the textbook formulas.",
+    MODEL_NOTE,TECH+"; congruence by decomposition of uninterpreted log-density applications","DESIGN.md §3 C02")
 m={"version":1,"setup_cmd":"./setup.sh",
  "hooks":{"guard":"PYHF_VERIF","enable":"not needed: instrumentation is harness-side (custom tensor backend via pyhf.set_backend; module-attribute stubs)","baseline_off_cmd":BASE,"source_commits":[],"add_only":True},
  "engines":[{"name":"pyhf_smt","path":"pyhf_smt/","serves_properties":[c["property_id"] for c in checks],"kind_free_text":"symbolic tensor backend (z3 Real terms in numpy object arrays) + forking path explorer + cell-wise SMT equivalence + concrete replay"}],
